@@ -46,6 +46,8 @@ var c10Bodies = map[string][]byte{
 	"unknown": append([]byte{0xc9}, []byte("unknown request body")...),
 	"ext":     append([]byte{27, 0, 0, 0, 4}, []byte("x@y!payload")...),
 	"big":     append([]byte{0xca}, bytes.Repeat([]byte{0x5a}, 64<<10)...),
+	// one byte more than the largest frame the shim relays: refused before anything is written (hold roots only)
+	"toobig": append([]byte{0xcb}, bytes.Repeat([]byte{0x33}, 16<<20)...),
 }
 
 func c10Raw(frame []byte) ([]byte, bool) {
@@ -140,7 +142,7 @@ func (x *c10World) Enabled() []bfs.Op {
 		ops = append(ops, bfs.Op{Name: "List"})
 		o("AddHardCert", "h1")
 		o("Sign", "h1", "K1", "c.cur", "Krsa")
-		o("Forward", "unknown", "empty", "one", "ext", "big")
+		o("Forward", "unknown", "empty", "one", "ext", "big", "toobig")
 		return ops
 	}
 	ops = append(ops, bfs.Op{Name: "List"}, bfs.Op{Name: "Signers"})
@@ -506,6 +508,12 @@ func (x *c10World) applyForward(op bfs.Op, memSetBefore map[string]int) (fs []bf
 			if want != nil && !bytes.Equal(resp, want) {
 				add("forward:reply-altered", fmt.Sprintf("Forward(%s) returned %d bytes, the underlying agent sent %d bytes", op.Arg, len(resp), len(want)))
 			}
+		} else if op.Arg == "toobig" {
+			// refused locally, before anything reached the underlying agent: the connection is still in step, so every
+			// later operation is judged as usual (a refusal that poisons later relays shows there)
+			if len(delivered) != 0 {
+				add("forward:oversized-request-partly-sent", fmt.Sprintf("Forward refused a %d-byte request (%v) after %d frame(s) of it had reached the underlying agent", len(body), ferr, len(delivered)))
+			}
 		} else if f2 == "" && !x.connDead() {
 			add("forward:fails-without-fault", fmt.Sprintf("Forward(%s) failed: %v", op.Arg, ferr))
 		}
@@ -536,7 +544,7 @@ func (x *c10World) connDead() bool {
 
 func checkC10(c *ev.Ctx) {
 	setupFixtures()
-	c.Rule("E1 BFS over histories of the real shimagent.Server (constructed by shimagent.New through the dial seam): AddHardCert(6 incl. plain key, absent key, wire-form key), Add(3), Remove(4), RemoveAll, List, Signers, Sign(7 incl. RSA/ECDSA/Ed25519 and via Signers()), Forward(5 raw bodies, 0..64KiB), and a fault plan as part of the history: at most one (thorough: two) deviation {failure, close, empty, unknown type, truncated, oversized 16MiB+1, huge 2^32-16} at underlying request offset 0/1 (thorough 2) from any point, plus construction faults at request 0 in no-upstream mode; roots = both modes x 4 initial contents (two of them with expired certificates at non-adjacent / adjacent positions, so purging runs inside the operations) + 6 construction-fault roots + 2 hold roots (every sequence over 11 value-returning operations with the caller keeping every earlier result: List blobs, signatures and raw replies must not change afterwards). non-trivial = operation hit by a fault, or hardware-certificate add/sign/remove, or forward; distinct by (fault, operation, offset)")
+	c.Rule("E1 BFS over histories of the real shimagent.Server (constructed by shimagent.New through the dial seam): AddHardCert(6 incl. plain key, absent key, wire-form key), Add(3), Remove(4), RemoveAll, List, Signers, Sign(7 incl. RSA/ECDSA/Ed25519 and via Signers()), Forward(5 raw bodies, 0..64KiB), and a fault plan as part of the history: at most one (thorough: two) deviation {failure, close, empty, unknown type, truncated, oversized 16MiB+1, huge 2^32-16} at underlying request offset 0/1 (thorough 2) from any point, plus construction faults at request 0 in no-upstream mode; roots = both modes x 4 initial contents (two of them with expired certificates at non-adjacent / adjacent positions, so purging runs inside the operations) + 6 construction-fault roots + 2 hold roots (every sequence over 12 value-returning operations incl. a raw request one byte above the 16 MiB frame limit with the caller keeping every earlier result: List blobs, signatures and raw replies must not change afterwards). non-trivial = operation hit by a fault, or hardware-certificate add/sign/remove, or forward; distinct by (fault, operation, offset)")
 	c.Assume("well-formed replies of the wrong message type are excluded (they make x/crypto's agent client panic by design)", "pass-through is compared with the same calls made directly on a twin keyring until the first fault is consumed")
 	var roots []string
 	for _, mode := range []string{"up", "noup"} {
